@@ -55,14 +55,25 @@ def run(ctx):
                    # zero-padded years, numeric UTC offsets, minutes)
                    "1.05 hours ago", "2.005 minutes ago", "10:30:15.000123", "2015-03-05 10:30:15.012", "16.09.03 11:55", "03/05/07",
                    "03 Feb 0099", "0099-03-05", "2015-03-05 10:30 +0000", "2015-03-05T17:57:39+00:00", "Tue, 05 Mar 2015 10:30:15 +0530",
-                   "00:05", "5 March 2015 00:00:07", "1500000000012", "in 0.25 hours", "01.02.03"]
+                   "00:05", "5 March 2015 00:00:07", "1500000000012", "in 0.25 hours", "01.02.03",
+                   # strings ending in letters / forms the special-cased rules of sanitize_date look at ('on:', year marker,
+                   # trailing periods, apostrophes, ', в')
+                   "12 Jan 2015, Mon", "Monday 12 noon", "12 Jan 2015 at noon", "Posted on: 12 Jan 2015", "on: 5 March 2015", "5 March 2015 on",
+                   "Sat, 3 Oct 2015 12:00 pm", "3 o'clock pm 5 March 2015", "5 Mar. 2015", "Mar. 5, 2015 10 a.m.", "5 March 2015 AD",
+                   "10:30 PM", "5 march 2015 10pm", "yesterday at noon", "2 hours ago.", "5 March 2015."]
         strings = [(s, ["en"]) for s in english] + [(s, None) for s in english[:8]]
+        strings += [("il y a 2 heures environ", ["fr"]), ("12 Ion 2015", ["cy"]), ("5 \u0444\u0435\u0432\u0440\u0430\u043b\u044f 2015 \u0433.", ["ru"]),
+                    ("13.11.2015. u 10:30", ["hr"]), ("12 \u044f\u043d\u0432\u0430\u0440\u044f 2015, \u0432 10:30", ["ru"]), ("le 5 mars 2015 \u00e0 10h30", ["fr"]),
+                    ("5. M\u00e4rz 2015 um 10:30 Uhr", ["de"]), ("vor 2 Tagen", ["de"]), ("hace 2 d\u00edas", ["es"])]
         for L in W["order"]:
             w = W["langs"][L]
             mi = rng.randrange(12)
             if w["months"][mi]:
                 strings.append(("%d %s %d %02d:%02d" % (rng.randint(1, 28), w["months"][mi], rng.choice([2015, 1999]), rng.randint(0, 23), rng.randint(0, 59)), [L]))
-            if w["rel"][0] and not ctx.quick():
+            wi = rng.randrange(7)
+            if w["months"][mi] and w["weekdays"][wi]:         # a dated string ENDING in the language's weekday name
+                strings.append(("%d %s %d, %s" % (rng.randint(1, 28), w["months"][mi], 2015, w["weekdays"][wi]), [L]))
+            if w["rel"][0]:
                 strings.append((w["rel"][0], [L]))
         for s, langs in strings:
             variants = ws_variants(s)
